@@ -1,4 +1,5 @@
 import Imeta.Model.Tiff
+import Imeta.Model.TiffReq
 namespace Imeta.Tiff
 
 def showOutcome : Outcome Header → String
@@ -9,6 +10,9 @@ def showOutcome : Outcome Header → String
 
 def handle : List String → Option String
   | ["tiff.scan", hex] => (parseHex hex).map fun b => showOutcome (scan (b.length + 1) b 0)
+  | ["tiff.req", hex] => (parseHex hex).map fun b =>
+      let r := scanC 4096 (b.length + 1) b 0 { buffered := 0, srcLeft := b.length, req := 0, reads := 0 }
+      s!"{showOutcome r.1} | req={r.2.req} reads={r.2.reads}"
   | ["tiff.spec", hex] => (parseHex hex).map fun b => showOutcome (spec b 0)
   | _ => none
 
